@@ -29,6 +29,10 @@ var c14ListA = ListSpec{ID: 1, Text: "! list A\n" +
 	"/ex[a-z]+le\\.net/\n" +
 	"/exa(?!b)ample\\.net/\n" + // parses, does not compile: marked invalid at first use
 	"/ad$domain=example.org\n" +
+	"/ads?$domain=z.org|example.org\n" +
+	"/ads?$domain=z.org|example.org,badfilter\n" +
+	"/firstad\n" +
+	"/secondbn\n" +
 	"@@||example.org^$generichide\n" +
 	"@@||example.org^$genericblock\n" +
 	"##.g1\n" +
@@ -75,6 +79,8 @@ func C14Scenarios() []Scenario {
 	d4 := dnsQ("v6.test", 28, "", "")
 	d5 := dnsQ("blocked.test", 1, "", "")
 	d6 := dnsQ("rw.test", 1, "", "")
+	fs := Query{Kind: "netmatch", URL: "http://x.test/firstad/secondbn/", Type: rules.TypeScript}
+	sf := Query{Kind: "netmatch", URL: "http://x.test/secondbn/firstad/", Type: rules.TypeScript}
 	d7 := dnsQ("hosts.test", 1, "", "")
 	d8 := dnsQ("dup.test", 1, "", "")
 	eng := Query{Kind: "engine", URL: "http://example.org/ads", Src: "http://example.org/", Type: rules.TypeScript}
@@ -89,6 +95,7 @@ func C14Scenarios() []Scenario {
 		{Name: "S4-dns-pool-3t", Lists: both, Threads: [][]Query{{d2, d5}, {d3, d4}, {d6, d7}}, Warm: []Query{d1, d7}},
 		{Name: "S4-dns-pool-both-tagged-2t", Lists: both, Threads: [][]Query{{d3, d5}, {d3b, d3}}, Warm: []Query{d1}},
 		{Name: "S8-last-lines-of-two-files-2t", Lists: both, Threads: [][]Query{{q2}, {d4}}, Warm: []Query{q1}},
+		{Name: "S10-equal-priority-rules-in-both-orders-2t", Lists: both, Threads: [][]Query{{fs}, {sf}}, Warm: []Query{q1}},
 		{Name: "S9-host-named-twice-2t", Lists: both, Threads: [][]Query{{d8}, {d8, d7}}, Warm: []Query{d1}},
 		{Name: "S5-engine-cosmetic-dns-3t", Lists: both, Threads: [][]Query{{eng}, {cos}, {d1}}, Warm: []Query{eng}},
 		{Name: "S7-engine-referrer-2t", Lists: both, Threads: [][]Query{{eng}, {eng2}}, Warm: []Query{eng}},
